@@ -34,7 +34,7 @@
 (* TERMS (records, field t is the tag)                                      *)
 (*   Text s | Seq xs | Sub n | Eval p | N p pre suf | If p a b nb           *)
 (*   Map p d ks | For p var body sep fsep hasf | Foreach items var body sep *)
-(*   fsep hasf | While c body | Let n e | Format p parts | Def n flags ip   *)
+(*   fsep hasf | While c body | Let n e | LetS n v | Format p parts | Def n flags ip *)
 (*   sp body | Call n p sa | Peek p | Pokes gs | Pushs name | Pops | Chr p  *)
 (*   Str p end | Space p | Pc | Pre x                                       *)
 (* p is a parameter group: the sequence, in textual order, of [k, e] where  *)
@@ -158,6 +158,7 @@ ZxChar(c) == CASE c = 94 -> 8593 [] c = 96 -> 163 [] c = 127 -> 169 [] OTHER -> 
 
 \* --------------------------------------------------------------- environment
 \* vars  : replacement fields (name -> integer): #LET variables, base, case, ...
+\* svars : string variables (#LET(name$=value)): name -> text
 \* mem   : the current internal memory snapshot as a sparse overlay (address -> byte) over the
 \*         bytes defined by the skool file (bo = origin, bb = bytes; 0 elsewhere)
 \* stack : snapshots saved by #PUSHS (most recent last)
@@ -168,7 +169,7 @@ ZxChar(c) == CASE c = 94 -> 8593 [] c = 96 -> 163 [] c = 127 -> 169 [] OTHER -> 
 \* err   : the text left the documented domain (the generator must never cause this)
 NewEnv(pc, base, case, bo, bb) ==
   [vars  |-> ("base" :> base) @@ ("case" :> case) @@ ("mode[base]" :> base) @@ ("mode[case]" :> case),
-   mem   |-> <<>>, stack |-> <<>>, defs |-> <<>>, subs |-> <<>>,
+   svars |-> <<>>, mem   |-> <<>>, stack |-> <<>>, defs |-> <<>>, subs |-> <<>>,
    pc |-> pc, base |-> base, case |-> case, bo |-> bo, bb |-> bb, err |-> FALSE]
 
 Err(env) == [env EXCEPT !.err = TRUE]
@@ -299,7 +300,8 @@ StrScan(env, a, endc, useEnd, acc) ==
           ELSE IF b >= 128 THEN Append(acc, b - 128)
           ELSE StrScan(env, a + 1, endc, useEnd, Append(acc, b))
 
-\* #FORMAT: parts are literal text [f |-> 0, s] or integer fields [f |-> 1, n, z, w, ty]
+\* #FORMAT: parts are literal text [f |-> 0, s], string variables [f |-> 2, n] ({n$}) or integer fields
+\* [f |-> 1, n, z, w, ty]
 \* ({n:[0][w][ty]}, ty in "", "d", "x", "X", "b"; Python format-spec semantics for integers:
 \* right aligned in w columns, padded with zeroes when the 0 flag is present, else with spaces)
 FieldText(p, env) ==
@@ -313,7 +315,10 @@ FieldText(p, env) ==
 
 FormatParts(parts, i, acc, env) ==
   IF i > Len(parts) THEN acc
-  ELSE FormatParts(parts, i + 1, acc \o (IF parts[i].f = 0 THEN parts[i].s ELSE FieldText(parts[i], env)), env)
+  ELSE FormatParts(parts, i + 1,
+                   acc \o (CASE parts[i].f = 0 -> parts[i].s
+                              [] parts[i].f = 1 -> FieldText(parts[i], env)
+                              [] OTHER          -> env.svars[parts[i].n]), env)
 
 \* #(...) in front of the parameters of macro m: every macro nested in the parameters is expanded,
 \* in textual order, before m itself is parsed; m then sees their output as literal text
@@ -399,10 +404,17 @@ Expand(x, env) ==
     [] x.t = "Let" ->
          LET r == ParamVals(One(x.e), <<0>>, env)
          IN <<<<>>, [r[2] EXCEPT !.vars = (x.n :> r[1][1]) @@ @]>>
+    [] x.t = "LetS" ->
+         \* #LET(name$=value): "If name ends with a dollar sign, value is interpreted as a string";
+         \* the skool macros in value "are expanded immediately"
+         LET r == Expand(x.v, env)
+         IN <<<<>>, [r[2] EXCEPT !.svars = (x.n :> r[1]) @@ @]>>
     [] x.t = "Format" ->
          \* #FORMAT[case](text): case 1 = lower, 2 = upper
          LET r == ParamVals(x.p, <<0>>, env)
-             ok == \A i \in 1..Len(x.parts) : x.parts[i].f = 0 \/ x.parts[i].n \in DOMAIN r[2].vars
+             ok == \A i \in 1..Len(x.parts) : \/ x.parts[i].f = 0
+                                                \/ (x.parts[i].f = 1 /\ x.parts[i].n \in DOMAIN r[2].vars)
+                                                \/ (x.parts[i].f = 2 /\ x.parts[i].n \in DOMAIN r[2].svars)
              s == FormatParts(x.parts, 1, <<>>, r[2])
          IN IF ~ok THEN <<<<>>, Err(r[2])>>
             ELSE <<(CASE r[1][1] = 1 -> Lower(s) [] r[1][1] = 2 -> Upper(s) [] OTHER -> s), r[2]>>
@@ -416,12 +428,15 @@ Expand(x, env) ==
          LET d    == env.defs[x.n]
              r    == ParamVals(x.p, [i \in 1..Len(d.ip) |-> d.ip[i].d], env)
              ib   == [i \in 1..Len(d.ip) |-> [n |-> d.ip[i].n, b |-> IntSub(r[1][i])]]
-             sb   == [i \in 1..Len(d.sp) |-> [n |-> d.sp[i], b |-> TermSub(x.sa[i])]]
+             \* string arguments: "will take its default value only if it is omitted"
+             sb   == [i \in 1..Len(d.sp) |-> [n |-> d.sp[i].n,
+                                                b |-> TermSub(IF i <= Len(x.sa) THEN x.sa[i] ELSE d.sp[i].d)]]
              all  == ib \o sb
              Bind[i \in 0..Len(all)] == IF i = 0 THEN r[2].subs ELSE (all[i].n :> all[i].b) @@ Bind[i - 1]
              rb   == Expand(d.body, [r[2] EXCEPT !.subs = Bind[Len(all)]])
              envo == [rb[2] EXCEPT !.subs = r[2].subs]
-         IN IF Len(x.sa) # Len(d.sp) THEN <<<<>>, Err(r[2])>>
+         IN IF Len(x.sa) > Len(d.sp) \/ \E i \in (Len(x.sa) + 1)..Len(d.sp) : d.sp[i].hasd = 0
+            THEN <<<<>>, Err(r[2])>>
             ELSE IF Bit(d.flags, 2) THEN <<Strip(rb[1]), envo>> ELSE <<rb[1], envo>>
     [] x.t = "Peek" ->
          LET r == ParamVals(x.p, <<0>>, env)
